@@ -5,6 +5,7 @@ To add an area: `import Pygom.Ops<Area>` and append `handle<Area>` to `handlers`
 import Pygom.Ops
 import Pygom.OpsIntegrate
 import Pygom.OpsParams
+import Pygom.OpsStoch
 
 namespace Pygom
 open Lean (Json)
@@ -13,6 +14,7 @@ def handlers : List (String → Json → Option (Except String Json)) :=
   [ handleCore
   , handleIntegrate
   , handleParams
+  , handleStoch
   ]
 
 def handle (j : Json) : Json :=
